@@ -17,11 +17,18 @@ SHRINK = None
 
 def gen(rng, i, tier):
     c = c11.gen(rng, i, tier)
+    need = False
     for d in c["datasets"]:
         off = d.get("X", {}).get("Offset", 0.0)
         lo = min(d["x"]) + off
         if lo <= 0.02:
-            d.setdefault("X", {})["Offset"] = 0.2
+            need = True
+            if not c.get("shared_info"):
+                d.setdefault("X", {})["Offset"] = 0.2
+    if need and c.get("shared_info"):
+        # one shared description: every dataset carries the same options
+        for d in c["datasets"]:
+            d["X"] = {"Offset": 0.2 - min(0.0, min(min(e["x"]) for e in c["datasets"]))}
     return c
 
 
